@@ -116,8 +116,45 @@ type Coro struct {
 	manual      bool // only runs when the harness says so (vhRun)
 	tried       bool
 	result      Value
-	sleepCh     ChanVal // one-shot timer channel of a time.Sleep in progress
-	parked      bool    // blocked at a channel operation it has attempted (partner of a rendezvous on an unbuffered channel)
+	sleepCh     ChanVal        // one-shot timer channel of a time.Sleep in progress
+	parked      bool           // blocked at a channel operation it has attempted (partner of a rendezvous on an unbuffered channel)
+	held        map[string]int // mutexes (by pointer key) this goroutine holds, with counts (read locks nest)
+}
+
+func (c *Coro) hold(k string) {
+	n := make(map[string]int, len(c.held)+1)
+	for a, b := range c.held {
+		n[a] = b
+	}
+	n[k]++
+	c.held = n
+}
+
+func (c *Coro) release(k string) bool {
+	if c.held[k] == 0 {
+		return false
+	}
+	n := make(map[string]int, len(c.held))
+	for a, b := range c.held {
+		n[a] = b
+	}
+	if n[k]--; n[k] == 0 {
+		delete(n, k)
+	}
+	c.held = n
+	return true
+}
+
+// lockReleased: the current goroutine releases k; Go allows unlocking a mutex another goroutine locked.
+func (st *State) lockReleased(k string) {
+	if st.co().release(k) {
+		return
+	}
+	for _, c := range st.coros {
+		if c.status != CoDone && c.release(k) {
+			return
+		}
+	}
 }
 
 func (c *Coro) clone() *Coro {
@@ -182,10 +219,26 @@ type State struct {
 	splitCap        int // overrides Config.SplitCap when > 0 (vhSplitCap)
 	concreteClock   bool
 	noAutoFire      bool
-	handoff         bool // vhHandoff: an Unlock yields the processor to the next other goroutine (one legal schedule among many)
-	yieldTo         int  // coroutine index + 1 to switch to after the current instruction (0: none)
+	watch           map[ObjID]watchDecl // vhWatch: objects under lockset (Eraser) analysis
+	handoff         bool                // vhHandoff: an Unlock yields the processor to the next other goroutine (one legal schedule among many)
+	yieldTo         int                 // coroutine index + 1 to switch to after the current instruction (0: none)
 	crcMismatch     bool
 	appendHook      func(ex *Exec, st *State, newCap int)
+}
+
+type watchDecl struct {
+	name string
+	t    types.Type // struct type of the object (field names for reports)
+}
+
+// eraserRec is the lockset state of one watched location (Savage et al., Eraser): exclusive to its first goroutine,
+// then shared (read only) or shared-modified; `locks` is the intersection of the locks held at the accesses made
+// since the location became shared.
+type eraserRec struct {
+	state uint8 // 1 exclusive, 2 shared, 3 shared-modified
+	first int
+	locks map[string]bool
+	done  bool // already reported
 }
 
 type guardDecl struct {
